@@ -325,11 +325,13 @@ def compressBody (H : Hooks) (constants : Dict) (it : Item) (position : Int) (la
     if ins.isAuipcJump then
       -- the JALR of an AUIPC pair keeps its immediate field (fix F3)
       keepItem it
-    else do
-      let m ← firstMatch H (chainGet constants labels) line ins position criteria
-      match m with
-      | none => keepItem it
-      | some c =>
+    else
+      match firstMatch H (chainGet constants labels) line ins position criteria with
+      -- `except ValueError` around the predicates (fix F5) also catches UnicodeDecodeError, a subclass
+      | .error (.internal "UnicodeDecodeError") => .error (.asm line)
+      | .error e => .error e
+      | .ok none => keepItem it
+      | .ok (some c) =>
         match compressedForm c ins with
         | none => .error (.internal "AttributeError")
         | some ci => pure ([.instr line ci], 2)      -- shrink all subsequent labels by 2
